@@ -41,13 +41,14 @@ PROPS = {
  "C18": dict(fp=[("result", {"CFA", "CBA", "CAN", "BID", "MOD", "ADDMSG", "PARAMS"}), ("*rej", None)],
              tags=["bid_fixed_rej", "bid_worth_rej", "bid_many_rej", "mod_rej", "cancel_rej", "create_fixed_rej", "create_batch_rej", "params_rej", "addmsg_rej",
                    "bid_fixed_ok", "bid_worth_ok", "bid_many_ok", "mod_ok", "cancel_ok", "create_fixed_ok", "create_batch_ok", "params_ok"]),
- "C19": dict(fp=[("auction.terms", None), ("seq", None), ("bid.terms", None), ("allowed", None), ("vqueue", None), ("bal.escrow", None)],
-             tags=["two_open_auctions"]),
+ "C19": dict(fp=[("auction.terms", None), ("seq", None), ("bid.terms", None), ("allowed", None), ("vqueue", None), ("bal.escrow", None),
+                 ("result", {"BID", "MOD"})],
+             tags=["two_open_auctions", "indep_probe"]),
 }
 PROPS["C14"] = dict(fp=[("transfers", BLOCKS), ("hooks", BLOCKS)], special="c14",
                     tags=["settle_batch_2bids", "settle_fixed_2bids", "settle_batch_sold", "release", "extend"])
 SPECIAL = {}
-TRANSLATORS = [("mapcensus", "MapLoops.v"), ("switchscan", "BuildSwitch.v"), ("clitables", "CliTables.v")]
+TRANSLATORS = [("mapcensus", "MapLoops.v"), ("switchscan", "BuildSwitch.v"), ("clitables", "CliTables.v"), ("consts", "Consts.v")]
 GENERATED = [t[1] for t in TRANSLATORS]
 
 def in_footprint(prop, m):
